@@ -565,7 +565,14 @@ with builtin_call (n : nat) (fr : list frame) (b : builtin) (args : list value) 
   let a1 := nth 0 args VNil in let a2 := nth 1 args VNil in let a3 := nth 2 args VNil in
   let badarg := fault 6 (frames_line fr) in
   match b with
-  | BEmit => (fun s => Ret [] (with_trace s (trace s ++ [args])))
+  | BEmit => (fun s =>
+      let k := dv_emit_fault (dv s) in
+      if (0 <? k) && (len (trace s) + 1 =? k) then
+        (* injected fault: this call of the host function fails; a marker row keeps it one-shot *)
+        let s' := with_trace s (trace s ++ [[VFault 99 0]]) in
+        if dv_fault_string (dv s) then Err (VStr (pos_prefix (frames_line fr) ++ s_inj)) s'
+        else Err (VNum (-777)%float) s'
+      else Ret [] (with_trace s (trace s ++ [args])))
   | BType => match args with [] => badarg | _ => ret [VStr (tyname a1)] end
   | BToString => match args with [] => badarg | _ => do v <- tostring_v n' fr a1; ret [v] end
   | BToNumber =>
@@ -688,7 +695,8 @@ with builtin_call (n : nat) (fr : list frame) (b : builtin) (args : list value) 
       end
   | BXpcall =>
       fun s => catch (bind (call n' ((None, None) :: fr) a1 [] s) (fun vs s' => Ret (VBool true :: vs) s'))
-                     (fun e s' => bind (call n' ((None, None) :: fr) a2 [e] s') (fun hv s'' => Ret [VBool false; first hv] s''))
+                     (fun e s' => catch (bind (call n' ((None, None) :: fr) a2 [e] s') (fun hv s'' => Ret [VBool false; first hv] s''))
+                                       (fun _ _ => Unsup 22))   (* an error inside the message handler: outside the fragment *)
   | BError =>
       do lv <- opt_int a2 1;
       do dvs <- (fun s => Ret (dv s) s);
